@@ -730,6 +730,13 @@ func (env *CEnv) call(e *CE) Term {
 	case "typeof":
 		return Term{S: "(dyntype " + arg(0).S + ")", Sort: SInt}
 	case "typeid":
+		if len(e.Args) == 1 && e.Args[0].Op == "str" { // typeid("map[string]any"): type expressions the expression parser cannot read
+			t, err := w.lookupType(env.pkgName, unquoteCE(e.Args[0].Name))
+			if err != nil {
+				cfail("%v", err)
+			}
+			return Term{S: strconv.Itoa(w.typeID(t)), Sort: SInt}
+		}
 		if len(e.Args) != 1 || calleeName(e.Args[0]) == "" {
 			cfail("typeid(T)")
 		}
@@ -750,14 +757,24 @@ func (env *CEnv) call(e *CE) Term {
 		return Term{S: "(and (not (= " + p.S + " 0)) (not (select " + f.heapTerm(env.old, "alloc", "(Array Int Bool)") + " " + p.S +
 			")) (select " + f.heapTerm(env.st, "alloc", "(Array Int Bool)") + " " + p.S + "))", Sort: SBool}
 	case "as": // as(x, *T): retype a reference term
-		if len(e.Args) != 2 || e.Args[1].Op != "ident" {
+		if len(e.Args) != 2 || (e.Args[1].Op != "ident" && e.Args[1].Op != "str") {
 			cfail("as(x, T)")
 		}
-		t, err := w.lookupType(env.pkgName, e.Args[1].Name)
+		tn := e.Args[1].Name
+		if e.Args[1].Op == "str" {
+			tn = unquoteCE(tn)
+		}
+		t, err := w.lookupType(env.pkgName, tn)
 		if err != nil {
 			cfail("%v", err)
 		}
 		a := arg(0)
+		if ts := w.sortOf(t, f.bv); ts != SInt && a.Sort == SInt {
+			// as(x, string) / as(x, float64) / as(x, []any): the value boxed in the interface value x (meaningful when typeof(x) is T)
+			f.declareFun("box_"+mangle(ts), []string{ts}, SInt)
+			f.declareFun("unbox_"+mangle(ts), []string{SInt}, ts)
+			return Term{S: "(unbox_" + mangle(ts) + " " + a.S + ")", Sort: ts, GoT: t}
+		}
 		return Term{S: a.S, Sort: a.Sort, GoT: t}
 	case "store":
 		a, k, v := arg(0), arg(1), arg(2)
@@ -841,4 +858,12 @@ func (env *CEnv) call(e *CE) Term {
 	}
 	cfail("unknown function %s in contract", e.Name)
 	return Term{}
+}
+
+// unquoteCE strips the quotes of a string-literal token used as a type expression.
+func unquoteCE(s string) string {
+	if u, err := strconv.Unquote(s); err == nil {
+		return u
+	}
+	return strings.Trim(s, "\"")
 }
